@@ -370,6 +370,8 @@ int ILLsymboltab_register (
 		{
 			ILL_IFTRACE ("register: OLD %s entry#=%d hash=%d\n",
 									 s, h->the_index, h->the_hash);
+			/* the slot the name already has: callers look at it */
+			*the_prev_index = h->the_index;
 			return 0;
 		}
 
